@@ -97,6 +97,26 @@ class Engine(BaseEngine):
             ev = (b'{"id":"' + b"11" * 32 + b'","pubkey":"' + b"22" * 32 + b'","created_at":1,"kind":1,"tags":' + t
                   + b',"content":"c","sig":"' + b"33" * 64 + b'"}')
             out.append((cls, "evjson %s n:80000 n:%d" % (C.tb(ev), rng.choice(fills))))
+        # Event::from_json into buffers around the size needed, for several member orders (content before / after the tags:
+        # the parser has a separate path for each) and plain / escaped / non-ASCII contents: too small -> error, never a panic
+        members = {"id": b'"id":"' + b"11" * 32 + b'"', "pubkey": b'"pubkey":"' + b"22" * 32 + b'"', "created_at": b'"created_at":1',
+                   "kind": b'"kind":1', "sig": b'"sig":"' + b"33" * 64 + b'"'}
+        orders = [["id", "pubkey", "created_at", "kind", "tags", "content", "sig"], ["content", "id", "pubkey", "created_at", "kind", "tags", "sig"],
+                  ["id", "content", "sig", "tags", "pubkey", "created_at", "kind"], ["tags", "content", "id", "pubkey", "created_at", "kind", "sig"]]
+        for content, clen in ((b"", 0), (b"hello world, plain ascii content", 32), (b"tab\\there \\\"q\\\"", 12), ("é†𝄞 ok".encode(), 12)):
+            for ts in ([], [[b"t", b"x"]], [[b"e", b"ab"], [], [b"p"]]):
+                m2 = dict(members)
+                m2["tags"] = b'"tags":' + jtags(ts)
+                m2["content"] = b'"content":"' + content + b'"'
+                need = 144 + tags_size(ts) + 4 + clen
+                for order in (orders if tier != "quick" else rng.sample(orders, 2) + [orders[1]]):
+                    text = b"{" + b",".join(m2[k] for k in order) + b"}"
+                    for ol in sorted(set([need - clen - 5, need - clen - 4, need - clen - 1, need - clen, need - clen + 1, need - 2, need - 1, need, need + 1, need + 7]
+                                         + ([need - j for j in range(0, clen + 9)] if tier != "quick" else []))):
+                        if ol < 0:
+                            continue
+                        cls = "json-small" if ol < need else "json-room"
+                        out.append((cls, "evjson %s n:%d n:%d" % (C.tb(text), ol, rng.choice(fills))))
         for nk in (65535, 65536):
             f = {"ids": [], "authors": [], "kinds": [7] * nk, "tags": [], "since": None, "until": None, "limit": None}
             out.append(("filter-big", "ctor_filter %s %s n:170" % (C.t_filter(f), C.tn(fl_size(f) + 1))))
@@ -125,6 +145,10 @@ class Engine(BaseEngine):
             rcls = i["r"].split(" ")[0].split(":")[0]
             if gcls.startswith("json-oversize") and rcls == "ok":
                 return Verdict(oracle_ok=False, cls="oversize-not-refused", detail="%s accepted a tag section larger than 65535 bytes" % cmd, outcome=rcls)
+            if gcls == "json-small" and rcls == "ok":
+                return Verdict(oracle_ok=False, cls="small-buffer-not-error", detail="%s accepted a buffer smaller than the event needs" % cmd, outcome=rcls)
+            if gcls == "json-room" and rcls != "ok":
+                return Verdict(oracle_ok=False, cls="ctor-refuses-valid", detail="%s refused although the buffer is large enough: %s" % (cmd, i["r"][:40]), outcome=rcls)
             if gcls.startswith("json-fits") and rcls != "ok":
                 return Verdict(oracle_ok=False, cls="ctor-refuses-valid", detail="%s refused a tag section that fits: %s" % (cmd, i["r"][:40]), outcome=rcls)
             if rcls == "ok" and (i.get("acc") == "panic" or i.get("json") == "panic"):
